@@ -114,7 +114,22 @@ func drawECDSA(rt *rapid.T) (*ecdsa.PrivateKey, string) {
 	c := rapid.SampledFrom(curves).Draw(rt, "curve")
 	n := c.Params().N
 	var d *big.Int
-	switch rapid.IntRange(0, 4).Draw(rt, "scalarclass") {
+	switch rapid.IntRange(0, 5).Draw(rt, "scalarclass") {
+	case 5:
+		// scalars of a few bytes: the range in which text encodings switch between number forms (2^31, 2^32, 2^52, 2^53, 2^63)
+		if rapid.Bool().Draw(rt, "atboundary") {
+			b := rapid.SampledFrom([]int64{1 << 15, 1 << 16, 1 << 31, 1 << 32, 1 << 52, 1 << 53, 1<<63 - 1}).Draw(rt, "boundary")
+			d = big.NewInt(b + int64(rapid.IntRange(-2, 2).Draw(rt, "off")))
+			if d.Sign() <= 0 {
+				d = big.NewInt(b)
+			}
+		} else {
+			d = big.NewInt(rapid.Int64Range(301, 1<<62).Draw(rt, "small"))
+			d.Rsh(d, uint(rapid.IntRange(0, 40).Draw(rt, "shift")))
+			if d.Sign() == 0 {
+				d.SetInt64(301)
+			}
+		}
 	case 0:
 		d = big.NewInt(rapid.Int64Range(1, 300).Draw(rt, "tiny"))
 	case 1:
@@ -211,7 +226,7 @@ type privEqualer interface {
 
 func TestC14Keys(t *testing.T) {
 	const name = "TestC14Keys"
-	rec := evid.New("C14", name, "keys built inside the generator from rapid-drawn bytes: RSA from two generated primes (modulus 1024..2064 bits incl. uneven prime sizes, e in {3,17,257,65537}), ECDSA scalars on P-224/256/384/521 (tiny, near n, leading zero bytes/top bit, random; one key in four moved to the next point with a coordinate shorter than the field) "+
+	rec := evid.New("C14", name, "keys built inside the generator from rapid-drawn bytes: RSA from two generated primes (modulus 1024..2064 bits incl. uneven prime sizes, e in {3,17,257,65537}), ECDSA scalars on P-224/256/384/521 (tiny, a few bytes long around 2^31 / 2^32 / 2^52 / 2^53 / 2^63, near n, leading zero bytes/top bit, random; one key in four moved to the next point with a coordinate shorter than the field) "+
 		"x every register format (PKCS#1, PKCS#8, SEC1, X.509, Transparent) x private/public half x versions 1.0..1.4 x {binary, XML, JSON}; pipeline: client.Register().WithKeyFormat(f).<builder>(key) -> request message -> encode/decode -> Get response -> encode/decode (binary: received from a TTLV stream on which another message follows before the key is extracted) -> accessors; "+
 		"oracle: key.Equal(original) for every accessor incl. the PEM ones, asked in a drawn order and the first one once more at the end; non-trivial = transparent format or XML/JSON; distinct by (key, format, version, encoding, half)").Attach(t)
 	rapid.Check(t, func(rt *rapid.T) {
